@@ -8,11 +8,13 @@ PROPERTY = 'C11'
 def harnesses(tier):
     if tier == 'quick':
         return [
+            {'name': 'earlier-view-N2', 'fn': graph.h_stale_view, 'cfg': {'N': 2, 'nW': 1, 'props': ['C11'], 'ops1': ['ch_remove', 'wbs_remove', 'set_parent'], 'ops2': ['ch_sort', 'ch_reorder', 'ch_insert', 'ch_move', 'ch_remove']}},
             {'name': 'attach-N3-W2', 'fn': graph.h_step,
              'cfg': {'prop': 'C11', 'N': 3, 'nW': 2, 'seqlen': 2, 'ops': graph.ATTACH_OPS}},
             {'name': 'remove-attach-N3', 'fn': graph.h_remove_attach, 'cfg': {'N': 3, 'seqlen': 2}},
         ]
     return [
+        {'name': 'earlier-view-N3', 'fn': graph.h_stale_view, 'cfg': {'N': 3, 'nW': 1, 'props': ['C11'], 'ops1': ['ch_remove', 'wbs_remove', 'set_parent'], 'ops2': ['ch_sort', 'ch_reorder', 'ch_insert', 'ch_move', 'ch_remove']}},
         {'name': 'step-N3-W2-all', 'fn': graph.h_step,
          'cfg': {'prop': 'C11', 'N': 3, 'nW': 2, 'seqlen': 3, 'ops': graph.ALL_OPS}},
         {'name': 'attach-N4-W1', 'fn': graph.h_step,
